@@ -38,6 +38,9 @@ def parseAlph (s : String) : Option (Bool × List String) :=
     | _ => none
   else none
 
+/-- `i64@s` (strided), `u8@r` (read-only), `i32@b` (byte-swapped), `i64@t` (tuple) … denote the same values. -/
+def dtBase (s : String) : String := ((s.splitOn "@").head?).getD s
+
 /-- An index token is `<int>` (Python int) or `<int>:<numpy dtype>`; all integer types index alike. -/
 def parseIdx (s : String) : Option Int := ((s.splitOn ":").head?).bind String.toInt?
 
@@ -98,7 +101,7 @@ def translateLine (tbl : Option CodonTable) (complete met dna : String) : String
 def step (st : State) (line : String) : State × String :=
   let pure (o : String) : State × String := (st, o)
   match words line with
-  | ["enc", a, syms] =>
+  | "enc" :: a :: syms :: _ =>
     match parseAlph a with
     | some (true, al) =>
       match nats? al, nats? (toks syms) with
@@ -114,12 +117,12 @@ def step (st : State) (line : String) : State × String :=
     match parseAlph a, parseInts codes with
     | some (true, al), some cs =>
       match nats? al with
-      | some al => pure (showE ((letterDecodeMultiple al (dt == "u8") cs).map fun xs => showNatsE xs))
+      | some al => pure (showE ((letterDecodeMultiple al (dtBase dt == "u8") cs).map fun xs => showNatsE xs))
       | none => pure "bad-op"
     | some (false, al), some cs => pure (showE ((decode al cs).map showToks))
     | _, _ => pure "bad-op"
   | ["dec1", a, code] =>
-    match parseAlph a, code.toInt? with
+    match parseAlph a, parseIdx code with
     | some (_, al), some c => pure (showE (decode1 al c))
     | _, _ => pure "bad-op"
   | ["newalph", a] =>
@@ -130,7 +133,7 @@ def step (st : State) (line : String) : State × String :=
       | none => pure "bad-op"
     | some (false, al) => pure (if al.isEmpty then errS .valueError else s!"ok {al.length}")
     | none => pure "bad-op"
-  | ["map", a, b, codes] =>
+  | "map" :: a :: b :: codes :: _ =>
     match parseAlph a, parseAlph b, parseNats codes with
     | some (_, src), some (_, tgt), some cs =>
       pure (showE (match mapperNew src tgt with
@@ -229,7 +232,7 @@ def step (st : State) (line : String) : State × String :=
     | some r, some cs =>
       match st.regs[r]? with
       | some s =>
-        let same := dt == "u" ++ toString (dtypeBits s.alph.length)
+        let same := dtBase dt == "u" ++ toString (dtypeBits s.alph.length)
         match s.setCode same cs with
         | .ok s' => ({ st with regs := st.regs.set r s' }, "ok " ++ showSyms s')
         | .error e => pure (errS e)
@@ -240,12 +243,104 @@ def step (st : State) (line : String) : State × String :=
     | some r, some a, some b, some cs =>
       match st.regs[r]? with
       | some s =>
-        let same := dt == "u" ++ toString (dtypeBits s.alph.length)
+        let same := dtBase dt == "u" ++ toString (dtypeBits s.alph.length)
         match s.setSliceCodes same a b cs with
         | .ok s' => ({ st with regs := st.regs.set r s' }, "ok " ++ showSyms s')
         | .error e => pure (errS e)
       | none => pure "ERR:noreg"
     | _, _, _, _ => pure "bad-op"
+  | "common" :: specs =>
+    match specs.mapM parseAlph with
+    | some als =>
+      pure (match commonAlphabet (als.map (·.2)) none with
+        | some (some a) => "ok " ++ showToks a
+        | _ => "ok none")
+    | none => pure "bad-op"
+  | ["ainfo", a, sym] =>
+    match parseAlph a with
+    | some (isL, al) =>
+      let letter := isL || al.all fun t => t.length == 2 && (t.startsWith "s" || t.startsWith "b")
+      pure s!"ok {al.length} {al.contains sym} {letter} {showToks al}"
+    | none => pure "bad-op"
+  | ["s_info", i] =>
+    match i.toNat?.bind (st.regs[·]?) with
+    | some s =>
+      pure (showE (s.symbols.map fun xs => s!"{s.codes.length} {showToks xs} {showNatsE s.frequency}"))
+    | none => pure "ERR:noreg"
+  | ["s_setsymbols", i, syms] =>
+    match i.toNat? with
+    | some r =>
+      match st.regs[r]? with
+      | some s =>
+        match s.setSymbols (toks syms) with
+        | .ok s' => ({ st with regs := st.regs.set r s' }, "ok " ++ showSyms s')
+        | .error e => pure (errS e)
+      | none => pure "ERR:noreg"
+    | none => pure "bad-op"
+  | ["s_nuc2", flag, bs] =>
+    match nats? (toks bs) with
+    | some b => pushSeq st ((nucNewFlag Gen.C03.nucUnamb Gen.C03.nucAmb (flag == "T") b).map seqOfNat)
+        (fun s => s!"{s.alph.length} {showSyms s}")
+    | none => pure "bad-op"
+  | ["s_revv", i] =>
+    match i.toNat?.bind (st.regs[·]?) with
+    | some s => pushSeq st (.ok s.reverse) showSyms
+    | none => pure "ERR:noreg"
+  | ["s_astype", i, j] =>
+    match i.toNat?, j.toNat? with
+    | some ri, some rj =>
+      match st.regs[ri]?, st.regs[rj]? with
+      | some a, some b =>
+        match a.asType b with
+        | .ok b' => ({ st with regs := st.regs.set rj b' }, "ok " ++ showSyms b')
+        | .error e => pure (errS e)
+      | _, _ => pure "ERR:noreg"
+    | _, _ => pure "bad-op"
+  | ["s_prot3", items] =>
+    let d3 : List (List Nat × Nat) :=
+      (Gen.C03.dict1to3.map fun e => (e.2.toList.map Char.toNat, e.1)) ++
+      (Gen.C03.dict3to1Extra.map fun e => (e.1.toList.map Char.toNat, e.2))
+    let parse (t : String) : Option (List Nat) := if t == "." then some [] else (t.splitOn ".").mapM String.toNat?
+    match (toks items).mapM parse with
+    | some ts => pushSeq st ((protNew3 prot d3 ts).map seqOfNat) showSyms
+    | none => pure "bad-op"
+  | ["s_rmstops", i] =>
+    match i.toNat?.bind (st.regs[·]?), indexOf? prot 42 with
+    | some s, some stopC => pushSeq st (.ok { s with codes := s.codes.filter (· != stopC) }) showSyms
+    | _, _ => pure "ERR:noreg"
+  | ["s_pos", i] =>
+    match i.toNat?.bind (st.regs[·]?) with
+    | some s => pure (showE (s.symbols.map fun xs => s!"{s.codes.length} {showToks xs}"))
+    | none => pure "ERR:noreg"
+  | ["k_info", n, k, sp, len] =>
+    let sp? : Option SpacingArg :=
+      if sp == "-" then some .none
+      else if sp.startsWith "m" then some (.str (sp.drop 1).toString.toList)
+      else (parseInts sp).map .ints
+    match n.toNat?, k.toNat?, sp?, len.toInt? with
+    | some n, some k, some sp, some len =>
+      pure (showE (match kmerNew k sp with
+        | .error e => .error e
+        | .ok spacing =>
+          let arrLen : Int := match spacing with
+            | none => len - k + 1
+            | some offs => len - ((offs.getLast?.getD 0 : Nat) : Int)
+          .ok s!"{n ^ k} {k} {match spacing with | none => "-" | some o => showNatsE o} {arrLen}"))
+    | _, _, _, _ => pure "bad-op"
+  | ["k_fuse2", n, k, _dt, rows] =>
+    match n.toNat?, k.toNat?, (rows.splitOn ";").mapM (fun r => ((r.splitOn ".").mapM String.toInt?)) with
+    | some n, some k, some rs =>
+      pure (showE (match kmerNew k .none with
+        | .error e => .error e
+        | .ok _ => (mapE (fuse n k) rs).map showIntsE))
+    | _, _, _ => pure "bad-op"
+  | ["k_splitv", n, k, codes] =>
+    match n.toNat?, k.toNat?, parseInts codes with
+    | some n, some k, some cs =>
+      pure (showE (match kmerNew k .none with
+        | .error e => .error e
+        | .ok _ => (mapE (split n k) cs).map fun rows => joinWith ";" (rows.map fun r => joinWith "." (r.map toString))))
+    | _, _, _ => pure "bad-op"
   -- k-mers
   | ["k_fuse", n, k, _dt, codes] =>
     match n.toNat?, k.toNat?, parseInts codes with
@@ -343,6 +438,29 @@ def step (st : State) (line : String) : State × String :=
       match t.withStarts nuc ((toks starts).map stringToBytes) with
       | .ok t' => ({ st with table2 := some t' }, "ok " ++ showTable t')
       | .error e => ({ st with table2 := none }, errS e)
+  | ["c_tr0", complete, met, dna] =>      -- `translate()` without a `codon_table` argument: the default table
+    let dflt := (findTableByName Gen.C03.defaultTableName).bind fun r =>
+      match (loadRows r).bind (fun t => t.withStarts nuc Gen.C03.defaultStarts) with
+      | .ok t => some t
+      | .error _ => none
+    pure (translateLine dflt complete met dna)
+  | ["c_dict"] => pure (match st.table with | some t => "ok " ++ showTable t | none => "ERR:notable")
+  | ["c_eq2"] =>
+    pure (match st.table, st.table2 with
+      | some t, some t2 => s!"ok {decide (t.codons = t2.codons ∧ t.starts = t2.starts)}"
+      | _, _ => "ERR:notable")
+  | ["c_names"] =>
+    pure ("ok " ++ joinWith ";" ((Gen.C03.codonTables.flatMap (·.names)).map fun n => n.replace " " "~"))
+  | ["c_codons", aa] =>
+    match st.table with
+    | none => pure "ERR:notable"
+    | some t =>
+      pure (showE (match aa.toList with
+        | [ch] =>
+          (encode1 prot ch.toNat).map fun a =>
+            let ms := (List.range t.codons.length).filter fun m => t.codons[m]? == some a
+            showToks (ms.map fun m => String.ofList (((numberToCodon m).filterMap (nuc[·]?)).map Char.ofNat))
+        | _ => .error .valueError))
   | ["c_get", codon] =>
     match st.table with
     | none => pure "ERR:notable"
